@@ -42,11 +42,11 @@ theorem c04_validateIndex_nat_len_lax (len : Nat) :
 
 /-- one iteration for index `j` on a numbered list of length `≥ j`, no removal: the element at `j`
     is replaced by the recursive merge, or (when `j` is the length) the value is appended -/
-theorem c04_mergeStep_list (rec : Node → Node → Except Err (Node × Bool)) (hrec : RecDelFaithful rec)
+theorem c04_mergeStep_list {exc : List Path} (rec : Node → Node → Except Err (Node × Bool)) (hrec : RecDelFaithful rec)
     {sf : Flags} {sk : CompKind} (hsk : sk.isDictFam = false) {acc acc' : List (Key × Node)}
     (hkeys : listKeys 0 acc = true) {j : Nat} (hj : j ≤ acc.length) {v : Node}
     (hv : (v.flags.del == some true) = false)
-    (h : mergeStep rec sf sk acc (.int (j : Int), v) = .ok acc') :
+    (h : mergeStep rec sf sk exc acc (.int (j : Int), v) = .ok acc') :
     (j < acc.length →
       ∃ c nw same, alookup (.int (j : Int)) acc = some c ∧ rec c v = .ok (nw, same) ∧
         acc' = aset (.int (j : Int)) (if same then nw else adopt sf sk nw) acc) ∧
@@ -124,11 +124,11 @@ theorem c04_alookup_append_right {α : Type} (k : Key) (l₁ l₂ : List (Key ×
 
 /-- the loop over a numbered newer list `ocs` (indices `j …`) on a numbered list `acc` with
     `j ≤ length`: pointwise description of the result -/
-theorem c04_mergeLoop_list (rec : Node → Node → Except Err (Node × Bool)) (hrec : RecDelFaithful rec)
+theorem c04_mergeLoop_list {exc : List Path} (rec : Node → Node → Except Err (Node × Bool)) (hrec : RecDelFaithful rec)
     {sf : Flags} {sk : CompKind} (hsk : sk.isDictFam = false) :
     ∀ (ocs : List (Key × Node)) (j : Nat) (acc acc' : List (Key × Node)),
       listKeys 0 acc = true → listKeys j ocs = true → j ≤ acc.length → noExplicitDel ocs = true →
-      mergeLoop rec sf sk acc ocs = .ok acc' →
+      mergeLoop rec sf sk exc acc ocs = .ok acc' →
       listKeys 0 acc' = true ∧ acc'.length = max acc.length (j + ocs.length) ∧
       (∀ i : Nat, alookup (.int (i : Int)) ocs = none →
         alookup (.int (i : Int)) acc' = alookup (.int (i : Int)) acc) ∧
@@ -148,7 +148,7 @@ theorem c04_mergeLoop_list (rec : Node → Node → Except Err (Node × Bool)) (
     obtain ⟨hkj, hkrest⟩ := hko'
     subst hkj
     simp only [mergeLoop] at h
-    cases hs : mergeStep rec sf sk acc (.int (j : Int), v) with
+    cases hs : mergeStep rec sf sk exc acc (.int (j : Int), v) with
     | error e => simp [hs] at h
     | ok acc1 =>
       simp only [hs] at h
